@@ -1,4 +1,6 @@
 mod checks;
+mod queuelist;
+mod tls;
 mod ebrworld;
 mod pure;
 mod seq;
